@@ -128,4 +128,32 @@ theorem iter_length (s : Sketch α) : s.iter.length = s.retained := by
   · rw [iter_of_level0_empty s h, List.length_map, flatten_length_eq_sizeSum]; rfl
   · rw [iter_of_level0_ne s h, weightedW_length]; rfl
 
+/-! ### the repaired constructor (skips empty levels) -/
+
+theorem iterF_pinned (fl : Flags) (h : fl.iterSkipsEmpty = false) (s : Sketch α) : s.iterF fl = s.iter := by
+  simp [Sketch.iterF, h]
+
+theorem iterGo_skip : ∀ (L : List (List α)) (idx w : Nat),
+    iterGo L.flatten idx (idx + (iterSkip (L.map List.length) w).1.headD 0) (iterSkip (L.map List.length) w).1.tail
+      (iterSkip (L.map List.length) w).2 = weightedW w L
+  | [], idx, w => by simp [iterSkip, iterGo, weightedW]
+  | l :: t, idx, w => by
+    by_cases hl : l = []
+    · subst hl
+      simp only [List.map_cons, List.length_nil, iterSkip, BEq.rfl, if_true, List.flatten_cons, List.nil_append, weightedW,
+        List.map_nil]
+      exact iterGo_skip t idx (2 * w)
+    · have hlen : (l.length == 0) = false := by
+        have := List.length_pos_iff.mpr hl; simp; omega
+      simp only [List.map_cons, iterSkip, hlen, Bool.false_eq_true, if_false, List.headD_cons, List.tail_cons, List.flatten_cons,
+        weightedW]
+      exact (iterGo_correct t).1 l idx w hl
+
+/-- the repaired iterator is right for EVERY sketch: level by level, weight doubling -/
+theorem iterF_repaired (fl : Flags) (h : fl.iterSkipsEmpty = true) (s : Sketch α) : s.iterF fl = weightedW 1 s.levels := by
+  have := iterGo_skip s.levels 0 1
+  simp only [Nat.zero_add] at this
+  simp only [Sketch.iterF, h, if_true]
+  exact this
+
 end DS.Kll
